@@ -186,6 +186,86 @@ D_MAP_TABLE = {
 }
 
 
+PERFORMS = [
+    # (self type's short name or None, function name, path suffix or None) -> the operation(s) one of which every path must reach
+    (("HashMap", "clone_from", None), ("clone_from_with_hasher", "clone_from@table")),
+    (("HashMap", "clone", None), ("clone_with_hasher", "clone@table")),
+    (("HashSet", "clone_from", None), ("clone_from@table",)),
+    (("HashSet", "clone", None), ("clone@table",)),
+    (("@S", "clear", None), ("clear",)),
+    (("@S", "shrink_to", None), ("shrink_to",)),
+    (("@S", "drain", None), ("drain",)),
+    (("HashMap", "from_iter", None), ("insert", "extend")),
+    (("HashSet", "from_iter", None), ("extend", "insert")),
+    (("HashMap", "extend", None), ("insert", "extend")),
+    (("HashSet", "extend", None), ("extend", "insert")),
+    (("HashMap", "par_extend", None), ("extend",)),
+    (("HashSet", "par_extend", None), ("extend",)),
+    (("HashMap", "from_par_iter", None), ("par_extend", "extend")),
+    (("HashSet", "from_par_iter", None), ("par_extend", "extend")),
+    ((None, "extend", "rayon::map::extend"), ("extend",)),
+    ((None, "extend", "rayon::set::extend"), ("extend",)),
+]
+
+
+def _performs(ctx, b, names, depth=0):
+    """None if every path of b from entry to a normal return performs one of `names` (a call of a method so named — not b itself — or a call
+    that is handed a closure / function every path of which does; a `for` loop whose body does counts for the loop), else a witness path"""
+    from rules_typestate import _must_pass
+    done = set()
+    polls = []
+    for c in ctx.calls(b):
+        if b.is_cleanup(c.loc.bb):
+            continue
+        lc = c.local_callee()
+        plain = {x for x in names if "@" not in x}
+        on_table = {x.split("@")[0] for x in names if x.endswith("@table")}
+        if c.method in plain and not (lc is not None and lc.path == b.path):
+            done.add(c.loc.bb)
+            continue
+        if c.method in on_table and c.arg_path(0) is not None:
+            # applied to the table (or the map) held in a field of self — not to, say, the hash builder
+            T_ = ctx.facts.types
+            q = c.arg_path(0)
+            fs = q.fields()
+            tid = c.args[0]["place"]["ty"] if c.args[0]["k"] in ("copy", "move") else None
+            while tid is not None and T_[tid].get("k") == "ref":
+                tid = T_[tid]["inner"]
+            if q.strip_refs().root == 1 and fs and tid is not None and (T_[tid].get("adt") == ctx.roles.S or T_[tid].get("adt") in ctx.roles.holders):
+                done.add(c.loc.bb)
+                continue
+        if depth < 3:
+            subs = c.closure_args() + c.fn_value_args()
+            if subs and all(_performs(ctx, cb, names, depth + 1) is None for cb in subs):
+                done.add(c.loc.bb)
+                continue
+        if c.method == "next" and c.dest is not None and c.target is not None:
+            polls.append(c)
+    for P in polls:
+        t = b.term(P.target)
+        if t["k"] != "switch":
+            continue
+        some = [tb for v, tb in t["targets"] if v == 1]
+        if some and _must_pass_or_back(b, some, done, P.loc.bb) is None:
+            done.add(P.loc.bb)
+    return _must_pass(b, [0], done, set())
+
+
+def _must_pass_or_back(b, starts, done, head):
+    """a path from `starts` that comes back to `head`, or reaches a return, without passing `done`; None if there is none"""
+    seen, st = set(), [(x, [x]) for x in starts]
+    while st:
+        x, path = st.pop()
+        if x in seen or x in done:
+            continue
+        seen.add(x)
+        if x == head or b.term(x)["k"] == "return":
+            return path
+        for s_ in b.succs(x):
+            st.append((s_, path + [s_]))
+    return None
+
+
 def rule_d_map(ctx):
     R = RuleResult("D-map", "the map's delegating operations perform the split-table operation they stand for on every path (clear, reserve, try_reserve, shrink_to, "
                    "shrink_to_fit, drain, remove, remove_entry: a frozen table read off the tree); every `insert*` operation of the map and of its entry handles "
@@ -215,6 +295,34 @@ def rule_d_map(ctx):
         if w is not None:
             R.viol("%s:not-performed" % api, b.where(Loc(w[-1], 0)), "%s can return (path %s) without applying %s to its own table: the operation does nothing there"
                    % (api, " -> ".join("bb%d" % x for x in w), " / ".join(names)))
+    # the same for trait implementations, the split table's own wholesale operations and the parallel-extend helpers
+    S = ctx.roles.S
+    for (tyname, fname, suffix), names in PERFORMS:
+        hits = 0
+        for b in ctx.facts.bodies.values():
+            if b.kind == "Closure" or b.name != fname:
+                continue
+            if suffix is not None:
+                if not b.path.endswith(suffix):
+                    continue
+            else:
+                st = T[b.raw["self_ty"]] if "self_ty" in b.raw else {}
+                adt = st.get("adt", "")
+                if tyname == "@S":
+                    if adt != S:
+                        continue
+                elif adt.rsplit("::", 1)[-1] != tyname or adt not in ctx.roles.holders and not any(adt in hs for hs in [ctx.roles.holders]) and \
+                        not any(ctx.facts.types[f["ty"]].get("adt") in ctx.roles.holders for v in ctx.facts.adts.get(adt, {"variants": []})["variants"] for f in v["fields"]):
+                    continue
+            hits += 1
+            n += 1
+            w = _performs(ctx, b, names)
+            R.inst(fn=b.path, performs=list(names), verdict="ok" if w is None else "VIOLATION")
+            if w is not None:
+                R.viol("%s:not-performed" % b.path, b.where(Loc(w[-1], 0)), "%s can return (path %s) without performing %s: the operation does nothing on that path"
+                       % (b.path, " -> ".join("bb%d" % x for x in w), " / ".join(names)))
+        if not hits and suffix is None and tyname != "@S" and fname in ("clone_from", "from_iter", "extend"):
+            R.anchor("performs:%s::%s" % (tyname, fname), "no implementation of %s for %s found" % (fname, tyname))
     # insert*: the value goes somewhere
     m = 0
     for b in ctx.facts.bodies.values():
